@@ -106,10 +106,16 @@ def _compare(ctx, track, model, where):
     return True
 
 
-def _apply(ctx, track, model, kind, op, where, flags):
+def _apply(ctx, track, model, state, op, where, flags):
     """apply one op to track and model; returns False when the history must stop"""
-    rng = RANGES[kind]
     name = op[0]
+    if name == "set_instr":  # another instrument is attached to the same track
+        track.instrument = _instr(op[1])
+        state["kind"] = op[1]
+        flags.add("instrument-changed")
+        return True
+    kind = state["kind"]
+    rng = RANGES[kind]
     if name == "add_bar":
         if not model.can_add_bar():
             return True
@@ -165,6 +171,9 @@ def _build(kind, ops):
     model = TrackModel()
     for op in ops:
         try:
+            if op[0] == "set_instr":
+                track.instrument = _instr(op[1])
+                continue
             if op[0] == "add_bar":
                 if model.can_add_bar():
                     track.add_bar(Bar(op[1], (op[2][0], op[2][1])))
@@ -188,9 +197,10 @@ def check_history(ctx, case):
     track = Track(_instr(kind))
     model = TrackModel()
     flags = set()
+    state = {"kind": kind}
     for k, op in enumerate(ops):
         where = "step %d %r" % (k, op)
-        if not _apply(ctx, track, model, kind, op, where, flags):
+        if not _apply(ctx, track, model, state, op, where, flags):
             break
         if not _compare(ctx, track, model, where):
             break
@@ -363,6 +373,7 @@ def _history_st():
             st.tuples(st.just("rest"), v).map(list),
             st.tuples(st.just("plus"), st.sampled_from(["str", "note", "nc", "bare"]), _notes_st(kind)).map(list),
             st.tuples(st.just("add_bar"), st.sampled_from(T.ALL_KEYS), st.sampled_from(METERS)).map(list),
+            st.tuples(st.just("set_instr"), st.sampled_from(["piano", "guitar", "generic", "midi", "none"] if kind != "none" else ["none"])).map(list),
         )
         return st.fixed_dictionaries({"instr": st.just(kind), "ops": st.lists(op, min_size=1, max_size=40)})
     return st.sampled_from(list(RANGES)).flatmap(ops)
